@@ -142,7 +142,10 @@ def main():
         if u.shape in ("S", "B"):
             rel = [o for o in rel if not (klass(o) == "unwind" and any(re.search(p, o["name"]) for p in getattr(u, "bounded_loops", [])))]
         ok = [o for o in rel if o["status"] == "SUCCESS"]
-        bad = [o for o in rel if o["status"] != "SUCCESS"]
+        bad = [o for o in rel if o["status"] == "FAILURE"]
+        unk = [o for o in rel if o["status"] not in ("SUCCESS", "FAILURE")]
+        if unk and not [o for o in r["obligations"] if o["status"] == "FAILURE"]:
+            undecided.append((u, dict(r, reason="%d obligations UNKNOWN without any FAILURE" % len(unk))))
         if u.shape in ("U", "W"):
             n_ob += len(rel); n_ok += len(ok)
         else:
